@@ -7,7 +7,7 @@ C09 the compiled problem's kind is contained in the declared resulting kind (als
 """
 import z3
 from rtc import compcheck
-from pyvc.values import Ref, Seq, Map, Opt, Str, SBool, SRef, SUnion, SSeq, SMap, Rec, CList, Loc, ExcVal, fresh_name, zbool, zint, Unsupported
+from pyvc.values import NoneT, Ref, Seq, Map, Opt, Str, SBool, SRef, SUnion, SSeq, SMap, Rec, CList, Loc, ExcVal, fresh_name, zbool, zint, Unsupported
 from pyvc.verify import Unit
 from pyvc.engine import LoopSpec
 from pyvc import builtins as B
@@ -15,8 +15,111 @@ from pyvc import builtins as B
 USES_THEORY = False
 
 
+def factory_pipelines(tier, seed):
+    """the real Factory.Compiler(problem_kind=K, compilation_kinds=[...]) on random kinds and sequences of 1-4 compilation kinds, against an
+    independent recomputation of the chain: stage j must be the first registered compiler (preference order) that supports the compilation
+    kind and the kind DECLARED for stage j (K_0 = K, K_(j+1) = stage j's resulting_problem_kind(K_j)); the factory refuses exactly when
+    some stage has no such compiler; every stage's default is its compilation kind"""
+    import random
+    import warnings
+    from unified_planning.environment import get_environment
+    from unified_planning.engines import CompilationKind
+    from unified_planning.model import ProblemKind
+    from unified_planning.model.problem_kind import FEATURES
+    from unified_planning.exceptions import UPNoSuitableEngineAvailableException
+    env = get_environment()
+    fac = env.factory
+    saved_stream = env.credits_stream
+    env.credits_stream = None
+    rng = random.Random(seed + 909)
+    n = 250 if tier == "quick" else 4000
+    classes = [(nm, fac.engine(nm)) for nm in fac.preference_list]
+    classes = [(nm, c) for nm, c in classes if c.is_compiler()]
+    cks_all = [ck for ck in CompilationKind if any(c.supports_compilation(ck) for _, c in classes)]
+    allf = sorted(f for fs in FEATURES.values() for f in fs)
+    bases = [c.supported_kind() for _, c in classes]
+    failures, evals, nontrivial = [], 0, 0
+    try:
+        for it in range(n):
+            base = rng.choice(bases)
+            feats = [f for f in sorted(base.features) if rng.random() < rng.choice([0.15, 0.5, 0.9])]
+            if rng.random() < 0.2:
+                feats += rng.sample(allf, 1)
+            try:
+                K = ProblemKind(set(feats), version=base.version)
+            except Exception:  # noqa
+                continue
+            # the request: mostly compilation kinds some registered compiler can take at that point of the (recomputed) chain, so that
+            # long pipelines are actually selected; sometimes an arbitrary one, so that refusals are exercised too
+            cks, k = [], K
+            for _ in range(rng.randint(1, 4)):
+                okc = [ck for ck in cks_all if any(c.supports_compilation(ck) and c.supports(k) for _, c in classes)]
+                ck = rng.choice(okc) if okc and rng.random() < 0.85 else rng.choice(cks_all)
+                cks.append(ck)
+                nxt = [c for _, c in classes if c.supports_compilation(ck) and c.supports(k)]
+                if nxt:
+                    try:
+                        k = nxt[0].resulting_problem_kind(k, ck)
+                    except Exception:  # noqa
+                        break
+            # reference chain
+            ref, kinds, k = [], [K], K
+            for ck in cks:
+                cand = [c for _, c in classes if c.supports_compilation(ck) and c.supports(k)]
+                if not cand:
+                    ref = None
+                    break
+                ref.append(cand[0])
+                try:
+                    k = cand[0].resulting_problem_kind(k, ck)
+                except Exception as e:  # noqa
+                    ref = ("raises", type(e).__name__)
+                    break
+                kinds.append(k)
+            evals += 1
+            desc = {"problem_kind": sorted(K.features), "compilation_kinds": [c.name for c in cks]}
+            with warnings.catch_warnings():
+                warnings.simplefilter("ignore")
+                try:
+                    pipe = fac.Compiler(problem_kind=K, compilation_kinds=cks)
+                    got = list(pipe._compilers)
+                except UPNoSuitableEngineAvailableException:
+                    got = None
+                except Exception as e:  # noqa
+                    got = ("raises", type(e).__name__)
+            if isinstance(ref, tuple) or isinstance(got, tuple):
+                if ref != got and not (isinstance(ref, tuple) and got is None):
+                    failures.append({"what": f"factory pipeline: Factory.Compiler {got}, recomputed chain {ref if not isinstance(ref, list) else 'selects a pipeline'}",
+                                     "concrete": desc, "observed": str(got)})
+                continue
+            if (ref is None) != (got is None):
+                failures.append({"what": "factory pipeline: " + ("the factory hands out a pipeline although some stage has no compiler supporting the kind declared for it"
+                                                                 if ref is None else "the factory refuses a pipeline every stage of which has a compiler supporting the kind declared for it"),
+                                 "concrete": desc, "observed": "refused" if got is None else [type(c).__name__ for c in got]})
+                continue
+            if ref is None:
+                continue
+            nontrivial += len(cks) > 2
+            for j, (c, r, ck) in enumerate(zip(got, ref, cks)):
+                if type(c) is not r or not r.supports(kinds[j]) or c.default != ck:
+                    failures.append({"what": f"factory pipeline: stage {j} is {type(c).__name__} (default {c.default}); the kind declared for it needs {r.__name__} with default {ck}",
+                                     "concrete": desc, "observed": [type(x).__name__ for x in got]})
+                    break
+            if len(failures) >= 4:
+                break
+    finally:
+        env.credits_stream = saved_stream
+    return {"evaluations": evals, "pipelines_of_3_or_more_stages_selected": nontrivial, "failures": failures,
+            "rule": f"{n} random (kind, 1-4 compilation kinds) requests to the real Factory.Compiler against an independent recomputation of the declared-kind chain"}
+
+
 def bounded(tier, seed):
-    return compcheck.run(tier, seed, ["C09"])["C09"]
+    r = compcheck.run(tier, seed, ["C09"])["C09"]
+    fp = factory_pipelines(tier, seed)
+    r["evaluations"] = r.get("evaluations", 0) + fp["evaluations"]
+    r["failures"] = list(r.get("failures", [])) + fp["failures"]
+    r["rule"] = r.get("rule", "") + "; " + fp["rule"] + f" ({fp['pipelines_of_3_or_more_stages_selected']} selected pipelines of >= 3 stages)"
+    return r
 
 
 # =========================================================================================== P: the factory's pipeline selection
@@ -103,7 +206,7 @@ class GetEngineClass(Unit):
         eng.contracts[_fa.format_table] = lambda e, st, a, k: iter([(st, Str.fresh("table"))])
 
         def inv(L):
-            i = L.iter_index.z
+            i = zint(L._i)
             pref, engines, k, c = self._pref, self._engines, self._k, self._c
             j = z3.Int(fresh_name("j"))
             return [("no class earlier in the preference order satisfies the conditions",
@@ -139,6 +242,126 @@ class GetEngineClass(Unit):
                                         z3.ForAll([j2 := z3.Int(fresh_name("j2"))], z3.Implies(z3.And(0 <= j2, j2 < j), z3.Not(sat_at(j2)))))))
 
 
-UNITS = [EngineSatisfiesConditions(), GetEngineClass()]
+QN_GE = "unified_planning.engines.factory.Factory._get_engine"
+CK.null = z3.Const("CompilationKind09.None", _C)
+ENG.pycls = _CM
+ENG.mutable["_default"] = CK
+PM = Ref("EngineParams09")
+PM.as_kwargs = True
+PIPE = Ref("CompilersPipeline09")
+CLS = z3.Function("class_of", ENG.z3sort(), _E)
+ALLOC = z3.Function("allocation_time", ENG.z3sort(), z3.IntSort())
+
+
+def chain_facts(eng, st, fac, comps, kinds, cks, pk0, upto):
+    """the pipeline built so far: stage j was chosen for the declared kind K_j, K_0 is the given kind, K_(j+1) is stage j's declared result"""
+    j = z3.Int(fresh_name("j"))
+    dflt = eng.heap_field(st, ENG, "_default")
+    cj, kj, ckj = comps.at(B.SInt(j)).z, kinds.at(B.SInt(j)).z, cks.at(B.SInt(j)).z
+    return [("stage j is a compiler that supports the kind declared for it and the compilation kind asked of it",
+             z3.ForAll([j], z3.Implies(z3.And(0 <= j, j < upto), SAT(CLS(cj), kj, z3.BoolVal(False), ckj)))),
+            ("the kind declared for stage 0 is the given kind; for stage j+1 it is stage j's resulting_problem_kind",
+             z3.And(z3.Implies(upto > 0, kinds.at(0).z == pk0.z),
+                    z3.ForAll([j], z3.Implies(z3.And(0 <= j, j + 1 < upto),
+                                              kinds.at(B.SInt(j + 1)).z == RPK(CLS(cj), kj, ckj))))),
+            ("stage j's default compilation kind is the one asked of it",
+             z3.ForAll([j], z3.Implies(z3.And(0 <= j, j < upto), z3.Select(dflt, cj) == ckj)))]
+
+
+class GetEnginePipeline(Unit):
+    prop = "C09"
+    name = "Factory._get_engine[COMPILER pipeline by kind]"
+    doc = ("for any number of compilation kinds: stage j is selected (by _get_engine_class's contract) for the kind DECLARED for it, where the "
+           "declared kind of stage 0 is the given problem kind and that of stage j+1 is stage j's resulting_problem_kind of stage j's declared kind; "
+           "each stage's default is its compilation kind; the pipeline holds exactly these stages in order")
+    allowed_raises = (_NoEngine,)
+
+    def target(self):
+        return _fa.Factory._get_engine
+
+    def configure(self, eng):
+        eng.contracts[issubclass] = _issubclass
+        unit = self
+
+        def get_class(e, st, a, k):
+            # contract = the two units above composed: the class returned satisfies the conditions, or no suitable engine
+            name = a[2] if len(a) > 2 else k.get("name")
+            if name is not None:
+                raise Unsupported("selection by name is outside this unit")
+            pk = a[3] if len(a) > 3 else k["problem_kind"]
+            ck = k["compilation_kind"]
+            s2 = st.fork()
+            yield s2.note("no-engine"), ExcVal(_NoEngine, (), "_get_engine_class")
+            c = EC.fresh("EngineClass")
+            st.assume(SAT(c.z, pk.z, z3.BoolVal(False), ck.z))
+            yield st, c
+        eng.contracts[_fa.Factory._get_engine_class] = get_class
+        eng.contracts[_fa.Factory._print_credits] = lambda e, st, a, k: iter([(st, None)])
+
+        def rpk(e, st, sv, a, k):
+            g = st.getfield(unit._fac, "_g_kinds")
+            st.setfield(unit._fac, "_g_kinds", st.alloc(e.deref(st, g).append(a[0]), "list"))
+            yield st, PK.wrap(RPK(sv.z, a[0].z, a[1].z))
+        EC.methods["resulting_problem_kind"] = rpk
+        EC.methods["get_credits"] = lambda e, st, sv, a, k: iter([(st, Ref("Credits09").fresh("credits"))])
+
+        def construct(e, st, sv, a, k):
+            inst = ENG.fresh("compiler")
+            cnt = st.getfield(unit._fac, "_g_alloc")
+            st.assume(CLS(inst.z) == sv.z, ALLOC(inst.z) == zint(cnt))
+            st.setfield(unit._fac, "_g_alloc", B.SInt(z3.simplify(zint(cnt) + 1)))
+            yield st, inst
+        EC.methods["__call__"] = construct
+
+        def pipe(e, st, a, k):
+            st.ghost["pipeline_of"] = e.deref(st, a[0])
+            yield st, PIPE.fresh("pipeline")
+        eng.contracts[_fa.CompilersPipeline] = pipe
+
+        def inv(L):
+            i = zint(L._i)
+            comps, kinds = L.seq("compilers", ENG), B.as_sseq(L._eng, L.st, L.field(unit._fac, "_g_kinds"), PK)
+            cnt = zint(L.field(unit._fac, "_g_alloc"))
+            j = z3.Int(fresh_name("j"))
+            cks, pk0 = unit._cks, unit._pk0
+            cur = L.problem_kind.z
+            return [("one stage and one declared kind per compilation kind handled so far", z3.And(comps.n == i, kinds.n == i)),
+                    ("the current kind is the one declared for the next stage",
+                     cur == z3.If(i == 0, pk0.z, RPK(CLS(comps.at(B.SInt(i - 1)).z), kinds.at(B.SInt(i - 1)).z, cks.at(B.SInt(i - 1)).z))),
+                    ("the stages are distinct objects", z3.ForAll([j], z3.Implies(z3.And(0 <= j, j < i), ALLOC(comps.at(B.SInt(j)).z) < cnt)))] + \
+                chain_facts(L._eng, L.st, unit._fac, comps, kinds, cks, pk0, i)
+        eng.loops[(QN_GE, 1)] = LoopSpec(inv, modifies=["name", "param", "compilation_kind", "EngineClass", "problem_kind", "compiler", "compilers", "all_credits",
+                                                         "self._g_kinds", "self._g_alloc", "heap:CompilerInstance09._default"],
+                                         types={"name": NoneT, "param": PM, "compilation_kind": CK, "EngineClass": EC, "problem_kind": PK, "compiler": ENG,
+                                                "compilers": Seq(ENG), "self._g_kinds": Seq(PK), "self._g_alloc": B.Int},
+                                         opaque=["all_credits"])
+
+    def setup(self, eng, st):
+        pk0 = PK.fresh("problem_kind")
+        cks = eng.fresh_of(st, Seq(CK), "compilation_kinds")
+        params = eng.fresh_of(st, Seq(PM), "params")
+        j = z3.Int(fresh_name("j"))
+        st.assume(params.n == cks.n, z3.ForAll([j], z3.Implies(z3.And(0 <= j, j < cks.n), cks.at(B.SInt(j)).z != CK.null)))
+        fac = st.alloc(Rec(_fa.Factory, {"_g_kinds": st.alloc(CList([]), "list"), "_g_alloc": 0}), "factory")
+        self._fac, self._cks, self._pk0 = fac, cks, pk0
+        return [fac, _OM.COMPILER], {"problem_kind": pk0, "compilation_kinds": st.alloc(cks, "list"), "params": st.alloc(params, "list")}, dict(cks=cks, pk0=pk0, fac=fac)
+
+    def post(self, eng, ctx, st, out):
+        if out[0] != "return":
+            return
+        r = out[1]
+        comps = st.ghost.get("pipeline_of")
+        if not (isinstance(r, SRef) and r.t is PIPE and comps is not None):
+            st.oblige("a compilers pipeline is returned", z3.BoolVal(False))
+            return
+        comps = B.as_sseq(eng, st, comps, ENG)
+        kinds = B.as_sseq(eng, st, eng.deref(st, st.getfield(ctx["fac"], "_g_kinds")), PK)
+        cks = ctx["cks"]
+        st.oblige("one stage per compilation kind", z3.And(comps.n == cks.n, kinds.n == cks.n))
+        for nm, f in chain_facts(eng, st, ctx["fac"], comps, kinds, cks, ctx["pk0"], cks.n):
+            st.oblige(nm, f)
+
+
+UNITS = [EngineSatisfiesConditions(), GetEngineClass(), GetEnginePipeline()]
 LEVEL = "exploration"
 EXPLANATION = __doc__
